@@ -190,6 +190,12 @@ class C08:
                     return f"entry with n={n} stored as {bf.dtype_name}"
                 if n != len(bf.mol_indices):
                     return "entry count differs from its member list"
+                # "its entries' centroids": the centroid of an entry is the majority vote (ties set) of ITS sums and count
+                if n >= 1:
+                    ls_ = np.asarray(bf.linear_sum, dtype=np.uint64)
+                    want_c = np.packbits(((2 * ls_ >= n) if n > 1 else (ls_ != 0)).astype(np.uint8))
+                    if not np.array_equal(np.asarray(bf.packed_centroid), want_c):
+                        return f"entry centroid (and its search-cache row) is not the majority vote of the entry's sums, n={n}"
             kinds = {bf.child is None for bf in node._subclusters}
             if len(kinds) > 1:
                 return "node mixes leaf entries and inner entries"
